@@ -79,6 +79,20 @@ def mapProc (state : Json) : Json :=
   if isTrue (fld state "Iterator") then (fld state "Iterator").getD .null
   else (fld state "ItemProcessor").getD (.obj [])
 
+/-- `MaxConcurrency`, when given, is a non-negative integer (the engine fails the Map state otherwise) -/
+def maxConcOk (state : Json) : Bool :=
+  match fld state "MaxConcurrency" with
+  | none => true
+  | some (.num n) => decide (0 ≤ n)
+  | some _ => false
+
+/-- the machine's `TimeoutSeconds`, when given, is a number (the engine fails the execution otherwise) -/
+def timeoutOk (m : Json) : Bool :=
+  match fld m "TimeoutSeconds" with
+  | none => true
+  | some (.num _) => true
+  | some _ => false
+
 /-- state `state` of the scope `kvs`; nested scopes are checked with one unit of fuel less -/
 def wfState : Nat → List (Str × Json) → Json → Bool
   | 0, _, _ => false
@@ -98,7 +112,7 @@ def wfState : Nat → List (Str × Json) → Json → Bool
      else if ty = S "Parallel" then
        leaveOk kvs state && !(listOf (fld state "Branches")).isEmpty &&
        (listOf (fld state "Branches")).all wfBranch
-     else if ty = S "Map" then leaveOk kvs state && wfBranch (mapProc state)
+     else if ty = S "Map" then leaveOk kvs state && wfBranch (mapProc state) && maxConcOk state
      else false)
 
 def wfScope (d : Nat) (kvs : List (Str × Json)) : Bool := kvs.all (fun kv => wfState d kvs kv.2)
@@ -128,7 +142,7 @@ def nodup : List Str → Bool
   | x :: xs => !xs.contains x && nodup xs
 
 /-- the definition is well-formed (fuel: the size of the value bounds its nesting depth) -/
-def WF (m : Json) : Bool := wfBranch m.size m && nodup (namesIn m.size m)
+def WF (m : Json) : Bool := wfBranch m.size m && nodup (namesIn m.size m) && timeoutOk m
 
 /-! ### problems -/
 
